@@ -1134,8 +1134,9 @@ Proof.
     as [l1 [l2 [is1 [is2 [if1 [if2 [rem [E1 [P1 [_ [C12 [_ [_ [Hrem [B2 [_ [_ E]]]]]]]]]]]]]]]]].
   rewrite E in El. destruct (phase14 colflow dense is1 is2 if1 rem _) as [st| | |] eqn:P14; try discriminate.
   inversion El as [[El1 El2]]. clear El. subst l.
-  destruct (phase14_inv colflow dense is1 is2 if1 rem _ _ Hrem) with (3 := P14) as [_ [_ [_ [new [En [_ Bn]]]]]];
-    [cbn; lia | cbn; lia |]. cbn [st_log] in En.
+  pose proof (phase14_inv colflow dense is1 is2 if1 rem (mkState l2 if1 is1 if2 None) st Hrem) as X.
+  cbn [st_cf st_cs] in X. specialize (X ltac:(lia) ltac:(lia) P14).
+  destruct X as [_ [_ [_ [new [En [_ Bn]]]]]]. cbn [st_log] in En.
   destruct (Hl i _ Pi) as [_ Li]. symmetry in Li. apply lookup_in in Li. rewrite En in Li.
   assert (B : if1 <= fst (first_of colflow (x, y, w, h)) /\ is1 <= fst (second_of colflow (x, y, w, h)) /\
               fst (second_of colflow (x, y, w, h)) + snd (second_of colflow (x, y, w, h)) <= is2).
@@ -1148,15 +1149,27 @@ Lemma phase14_split colflow dense is1 is2 if1 r1 c r2 st st' :
   exists s1 s2, phase14 colflow dense is1 is2 if1 r1 st = Ok s1 /\ step14 colflow dense is1 is2 if1 s1 c = Ok s2 /\
                 phase14 colflow dense is1 is2 if1 r2 s2 = Ok st'.
 Proof.
-  rewrite phase14_app. destruct (phase14 colflow dense is1 is2 if1 r1 st) as [s1| | |]; try discriminate.
-  cbn [phase14]. destruct (step14 colflow dense is1 is2 if1 s1 c) as [s2| | |]; try discriminate.
-  intros H. exists s1, s2. auto.
+  rewrite phase14_app. destruct (phase14 colflow dense is1 is2 if1 r1 st) as [s1| | |] eqn:E1; try discriminate.
+  cbn [phase14]. destruct (step14 colflow dense is1 is2 if1 s1 c) as [s2| | |] eqn:E2; try discriminate.
+  intros H. exists s1, s2. repeat split; auto.
 Qed.
 
 Lemma filter_split {A} (f : A -> bool) l1 x l2 y l3 :
   f x = true -> f y = true ->
   filter f (l1 ++ x :: l2 ++ y :: l3) = filter f l1 ++ x :: filter f l2 ++ y :: filter f l3.
 Proof. intros Hx Hy. rewrite filter_app. cbn. rewrite Hx, filter_app. cbn. rewrite Hy. reflexivity. Qed.
+
+Lemma nodup_app_r {A} (l1 l2 : list A) : NoDup (l1 ++ l2) -> NoDup l2.
+Proof. induction l1 as [|a r IH]; cbn; [auto|]. intros H. inversion H; subst. auto. Qed.
+
+Lemma nodup_mid {A} (l1 : list A) x l2 y l3 :
+  NoDup (l1 ++ x :: l2 ++ y :: l3) -> ~ In x (l2 ++ y :: l3) /\ ~ In y l3.
+Proof.
+  intros H. split.
+  - apply NoDup_remove_2 in H. intros X. apply H. apply in_or_app. right. exact X.
+  - apply nodup_app_r in H. inversion H as [|? ? _ H']; subst. apply NoDup_remove_2 in H'.
+    intros X. apply H'. apply in_or_app. right. exact X.
+Qed.
 
 (* sparse packing: among the fully automatic items, taken in order-modified document order, the first-axis
    (row for grid-auto-flow: row) position never decreases *)
@@ -1183,7 +1196,7 @@ Proof.
   set (r1 := filter P ch1) in *. set (r2 := filter P ch2) in *. set (r3 := filter P ch3) in *.
   assert (ND : NoDup (map fst rem)).
   { assert (NDc : NoDup (map fst (sort_children (index_from 0 items)))) by (apply sort_children_nodup, index_from_nodup).
-    rewrite Ech in NDc. subst rem. clear - NDc.
+    rewrite Ech in NDc. subst rem. clear - NDc Pi Pj.
     assert (G : forall (l : list (nat * item)), NoDup (map fst l) -> NoDup (map fst (filter P l))).
     { induction l as [|p r IH]; cbn; [auto|]. intros H. inversion H; subst. destruct (P p); cbn; [|auto].
       constructor; [|auto]. intros X. apply H2. apply in_map_iff in X as [q [X1 X2]]. apply filter_In in X2 as [X2 _].
@@ -1200,8 +1213,9 @@ Proof.
   { intros k kt H. apply (Hrem k kt). apply in_or_app. right. right. apply in_or_app. right. right. exact H. }
   destruct (Hrem i it) as [Ri Wi]; [apply in_or_app; right; left; reflexivity|].
   destruct (Hrem j jt) as [Rj Wj]; [apply in_or_app; right; right; apply in_or_app; right; left; reflexivity|].
-  destruct (phase14_inv colflow false is1 is2 if1 r1 _ _ H1) with (3 := Q1) as [A1 [A2 [_ [n1 [L1 [M1 _]]]]]];
-    [cbn; lia | cbn; lia |]. cbn [st_log] in L1.
+  pose proof (phase14_inv colflow false is1 is2 if1 r1 (mkState l2 if1 is1 if2 None) s1 H1) as X.
+  cbn [st_cf st_cs] in X. specialize (X ltac:(lia) ltac:(lia) Q1).
+  destruct X as [A1 [A2 [_ [n1 [L1 [M1 _]]]]]]. cbn [st_log] in L1.
   destruct (step14_inv colflow false is1 is2 if1 _ _ _ _ Ri Wi A1 A2 Q2) as [ai [L2 [A3 [A4 [_ [_ [_ A5]]]]]]].
   destruct (phase14_inv colflow false is1 is2 if1 r2 _ _ H2 A3 A4 Q4) as [A6 [A7 [A8 [n3 [L3 [M3 _]]]]]].
   destruct (step14_inv colflow false is1 is2 if1 _ _ _ _ Rj Wj A6 A7 Q5) as [aj [L4 [A9 [A10 [A11 [_ [_ A12]]]]]]].
@@ -1214,12 +1228,12 @@ Proof.
   rewrite map_app in ND. cbn [map] in ND. rewrite map_app in ND. cbn [map fst] in ND.
   assert (Lf : st_log st = n5 ++ (j, aj) :: n3 ++ (i, ai) :: n1 ++ l2).
   { rewrite L5, L4, L3, L2, L1. reflexivity. }
+  destruct (nodup_mid _ _ _ _ _ ND) as [Hx Hy].
   assert (Nj : ~ In j (map fst n5)).
-  { rewrite M5, <- in_rev. intros X. apply NoDup_remove_2 in ND. apply NoDup_remove_2 in ND. 
-    apply NoDup_app_remove_l in ND. inversion ND; subst. apply H5. exact X. }
+  { rewrite M5, <- in_rev. exact Hy. }
   assert (Ni : ~ In i (map fst (n5 ++ (j, aj) :: n3))).
-  { rewrite map_app. cbn [map fst]. rewrite M5, M3. intros X. apply NoDup_remove_2 in ND. apply ND.
-    apply in_or_app. right. apply in_app_or in X as [X | [X | X]].
+  { rewrite map_app. cbn [map fst]. rewrite M5, M3. intros X. apply Hx.
+    apply in_app_or in X as [X | [X | X]].
     - apply in_or_app. right. right. apply in_rev. exact X.
     - subst. apply in_or_app. right. left. reflexivity.
     - apply in_or_app. left. apply in_rev. exact X. }
@@ -1230,3 +1244,136 @@ Proof.
   rewrite (lookup_app_not_in i _ _ Ni) in La. cbn [lookup_area] in La. rewrite Nat.eqb_refl in La.
   inversion La; inversion Lc; subst. lia.
 Qed.
+
+(* ---- Hang is a real divergence of grid_layout's loop, CrashUnbound a real unbound read *)
+Lemma stale_search_first fuel fs si ssz ps stale k :
+  stale_search false (S fuel) fs si ssz ps stale k = None -> stale_search false 1 fs si ssz ps stale k = None
+with stale_search_first_c fuel fs si ssz ps stale k :
+  stale_search true (S fuel) fs si ssz ps stale k = None -> stale_search true 1 fs si ssz ps stale k = None.
+Proof.
+  - cbn. destruct (pl_line_end fs (stale + 1 + get_span fs)) as [fi fsz]. destruct (fi <? k); [reflexivity|].
+    destruct (intersect_with_children _ ps); [reflexivity | discriminate].
+  - cbn. destruct (pl_line_end fs (stale + 1 + get_span fs)) as [fi fsz]. destruct (fi <? k); [reflexivity|].
+    destruct (intersect_with_children _ ps); [reflexivity | discriminate].
+Qed.
+
+Theorem grid_hang_is_divergence colflow dense is1 is2 if1 st i it :
+  item_valid it = true -> get_placement (fst_s colflow it) (fst_e colflow it) = None ->
+  step14 colflow dense is1 is2 if1 st (i, it) = Hang ->
+  dense = false /\
+  exists n stale si ssz,
+    fst_s colflow it = GSpan n /\ st_stale st = Some stale /\
+    get_placement (snd_s colflow it) (snd_e colflow it) = Some (si, ssz) /\
+    forall fuel, stale_search colflow fuel (GSpan n) si ssz (areas (st_log st)) stale
+                              (if si <? st_cs st then st_cf st + 1 else st_cf st) = None.
+Proof.
+  intros V N. apply get_placement_none in N as [N1 _]. destruct (valid_first colflow it V) as [V1 _]. unfold step14.
+  destruct (get_placement (snd_s colflow it) (snd_e colflow it)) as [[si ssz]|] eqn:E.
+  - destruct dense.
+    + destruct (first_search colflow _ false _ _ if1 si ssz _ if1) as [[[k fi] fsz]|]; discriminate.
+    + destruct (fst_s colflow it) as [|m|n] eqn:Efs; [| discriminate N1 |].
+      * match goal with |- context[first_search colflow ?f true GAuto ?e ?c si ssz ?p ?k] =>
+          destruct (first_search colflow f true GAuto e c si ssz p k) as [[[k' fi] fsz]|] end; discriminate.
+      * destruct (st_stale st) as [stale|]; [|discriminate].
+        match goal with |- context[stale_search ?a ?b ?c ?d ?e ?f ?g ?h] =>
+          destruct (stale_search a b c d e f g h) as [[[k' fi] fsz]|] eqn:S end; [discriminate|].
+        intros _. split; [reflexivity|]. exists n, stale, si, ssz. repeat split; auto.
+        cbn in V1. assert (Hn : 1 <= n) by lia. unfold search_fuel in S. destruct colflow.
+        -- apply stale_search_first_c in S. apply (stale_search_diverges true n si ssz _ stale _ Hn S).
+        -- apply stale_search_first in S. apply (stale_search_diverges false n si ssz _ stale _ Hn S).
+  - match goal with |- context[auto_loop ?a ?b ?c ?d ?e ?f ?g ?h ?i ?j ?k ?l] =>
+      destruct (auto_loop a b c d e f g h i j k l) as [[[[[a' fi] fsz] cf'] if2']|] end; discriminate.
+Qed.
+
+(* ================================================================================= examples, refutations *)
+Definition it_ (cs ce rs re : gline) : item := mkItem cs ce rs re 0.
+Definition auto_item : item := it_ GAuto GAuto GAuto GAuto.
+
+(* the hypotheses of the theorems are satisfiable: a 3 x 2 grid, one item placed by lines (columns 2-4, row 1),
+   three automatic items; row flow, sparse *)
+Example grid_example_items : list item := [it_ (GLine 2) (GLine 4) (GLine 1) GAuto; auto_item; auto_item; auto_item].
+Example grid_example_valid : valid_items grid_example_items.
+Proof. intros it H. cbn in H. repeat (destruct H as [<- | H]; [reflexivity|]). destruct H. Qed.
+Example grid_example_run :
+  grid_place 3 2 false false grid_example_items =
+  Ok ([Some (1, 0, 2, 1); Some (0, 0, 1, 1); Some (0, 1, 1, 1); Some (1, 1, 1, 1)], (0, 3, 0, 2)).
+Proof. vm_compute. reflexivity. Qed.
+Example grid_example_dense_column :
+  grid_place 3 2 true true [it_ (GLine 2) (GLine 4) (GLine 1) GAuto; it_ (GSpan 2) GAuto GAuto GAuto; auto_item;
+                            it_ GAuto GAuto (GLine 2) GAuto] =
+  Ok ([Some (1, 0, 2, 1); Some (0, 1, 2, 1); Some (0, 0, 1, 1); Some (2, 1, 1, 1)], (0, 3, 0, 2)).
+Proof. vm_compute. reflexivity. Qed.
+Example intersect_example : intersect 2 3 4 1 = true /\ intersect 2 2 4 1 = false.
+Proof. split; reflexivity. Qed.
+Example grid_row_major_example :
+  exists l b, grid_place_log 3 2 false false grid_example_items = Ok (l, b) /\
+    sort_children (index_from 0 grid_example_items) =
+      [(0%nat, it_ (GLine 2) (GLine 4) (GLine 1) GAuto)] ++ (1%nat, auto_item) :: [] ++ (2%nat, auto_item) :: [(3%nat, auto_item)] /\
+    fully_auto auto_item /\ lookup_area 1 l = Some (0, 0, 1, 1) /\ lookup_area 2 l = Some (0, 1, 1, 1).
+Proof. eexists. eexists. split; [vm_compute; reflexivity|]. repeat split; reflexivity. Qed.
+
+(* F-g  sparse packing back-fills: the lexicographic (row, column) order of css-grid 8.5 "sparse" is NOT kept.
+   4 columns; D at column 2 of row 1; E spans 2 columns and lands on columns 3-4; F, which follows E, is put
+   on column 1 of the same row, BEFORE E (css-grid: the cursor has passed column 4, F goes to row 2) *)
+Theorem grid_lexicographic_order_refuted :
+  exists items pl b, valid_items items /\ grid_place 4 2 false false items = Ok (pl, b) /\
+    exists it jt xa ya wa ha xb yb wb hb,
+      nth_error items 1 = Some it /\ nth_error items 2 = Some jt /\ fully_auto it /\ fully_auto jt /\
+      nth_error pl 1 = Some (Some (xa, ya, wa, ha)) /\ nth_error pl 2 = Some (Some (xb, yb, wb, hb)) /\
+      ya = yb /\ xb < xa.
+Proof.
+  exists [it_ (GLine 2) GAuto (GLine 1) GAuto; it_ (GSpan 2) GAuto GAuto GAuto; auto_item]. eexists. eexists.
+  split; [intros it H; cbn in H; repeat (destruct H as [<- | H]; [reflexivity|]); destruct H|].
+  split; [vm_compute; reflexivity|].
+  do 10 eexists. repeat split; try reflexivity; cbn; lia.
+Qed.
+
+(* F-f  the implicit grid is not extended on the flow axis for an auto-placed item that spans past its end
+   (sparse: never; dense: one track too few): `grid-row: span 3` in a grid of 2 rows occupies rows 0-2 but
+   implicit_y2 stays 2, so no third row track is created *)
+Theorem grid_first_axis_bound_refuted :
+  exists items pl x1 x2 y1 y2 x y w h, valid_items items /\
+    grid_place 3 2 false false items = Ok (pl, (x1, x2, y1, y2)) /\
+    nth_error pl 0 = Some (Some (x, y, w, h)) /\ y2 < y + h.
+Proof.
+  exists [it_ GAuto GAuto (GSpan 3) GAuto]. do 9 eexists.
+  split; [intros it H; cbn in H; repeat (destruct H as [<- | H]; [reflexivity|]); destruct H|].
+  split; [vm_compute; reflexivity|]. split; [reflexivity | cbn; lia].
+Qed.
+
+(* F-c  an item locked to a row that is otherwise empty is put on the SECOND column: `max(occupied or [0]) + 1` *)
+Theorem grid_locked_item_skips_first_cell :
+  grid_place 3 2 false false [it_ GAuto GAuto (GLine 1) GAuto] = Ok ([Some (1, 0, 1, 1)], (0, 3, 0, 2)).
+Proof. vm_compute. reflexivity. Qed.
+
+(* F-d / F-e  sparse mode, an item whose flow axis is `span n` and whose other axis is a line number reads the
+   variable first_i left by the previous item: unbound for the first such item, else a loop that cannot exit *)
+Theorem grid_unbound_first_i : grid_place 3 2 false false [it_ (GLine 1) GAuto (GSpan 2) GAuto] = CrashUnbound.
+Proof. vm_compute. reflexivity. Qed.
+Theorem grid_hang_refuted : grid_place 3 2 false false [auto_item; it_ (GLine 1) GAuto (GSpan 2) GAuto] = Hang.
+Proof. vm_compute. reflexivity. Qed.
+
+(* F-a  negative integers are not counted from the end edge of the explicit grid: `grid-column-start: -1` in a
+   3-column grid is line 4 (area x = 3) for css-grid 8.3, the model (and the code) answers x = -2 *)
+Theorem grid_negative_line_refuted :
+  exists a, grid_place 3 2 false false [it_ (GLine (-1)) GAuto (GLine 1) GAuto] = Ok ([Some a], (-2, 3, 0, 2)) /\
+            a = (-2, 0, 1, 1) /\ css_range 3 (GLine (-1)) GAuto = Some (3, 1) /\
+            spec_lines 3 2 (it_ (GLine (-1)) GAuto (GLine 1) GAuto) a = false.
+Proof. eexists. split; [vm_compute; reflexivity|]. repeat split; reflexivity. Qed.
+
+(* F-b  Python's negative indexing: an area on implicit tracks before the explicit grid is drawn on tracks taken
+   from the END of the track list (x = -1 -> position of the last column, and the slice [-1:0] is empty: width 0
+   instead of the 41px implicit column at x = 0), and a negative row removes the item from the page *)
+Theorem grid_negative_index_wraps :
+  render_model (mkPcase [13; 17; 19] [23; 29] 41 43 false false 3 5 [it_ GAuto (GLine 1) (GLine 1) GAuto]) =
+    ROk [Some (-1, 0, 1, 1)] [Some (41 + 3 + 13 + 3 + 17 + 3, 0, 0, 23)] /\
+  css_rect (mkPcase [13; 17; 19] [23; 29] 41 43 false false 3 5 []) (-1) 0 (-1, 0, 1, 1) = (0, 0, 41, 23) /\
+  render_model (mkPcase [13; 17; 19] [23; 29] 41 43 false false 3 5 [it_ (GLine 1) GAuto GAuto (GLine 1)]) =
+    ROk [Some (0, -1, 1, 1)] [None].
+Proof. repeat split; vm_compute; reflexivity. Qed.
+
+(* F-h  _resolve_tracks_sizes is given implicit_second_1 as the start of the COLUMN tracks even when the second
+   axis is the row axis (grid-auto-flow: column): IndexError *)
+Theorem grid_index_error :
+  render_model (mkPcase [13; 17; 19] [23; 29] 41 43 true false 3 5 [it_ (GLine 3) GAuto (GLine (-2)) GAuto]) = RCrashIndex.
+Proof. vm_compute. reflexivity. Qed.
